@@ -6,6 +6,7 @@ import itertools
 
 import enc
 import gen
+from automata.fa.dfa import DFA
 from props.common import load_def, mk_dfa, outcome
 
 RULE = ("valid DFA definitions: random (1-6 states, 1-3 symbols, 7 name pools incl. negative ints) plus shaped ones - "
@@ -526,10 +527,84 @@ def stress_minify(ctx, n):
                               {"kind": "dfa", "def": repr(ddef), "tag": "stress", "problems": problems})
 
 
+def ops_minify_stream(ctx, n):
+    """'...directly or through the minify option of another operation': union / intersection / difference /
+    symmetric_difference / complement / DFA.from_nfa with minify=True. The un-minified result of the same call is
+    the reference: the minified result must have the same language and the minimum number of states for a DFA of its
+    own kind (live residual classes, plus the dead class when it is complete and the language has one), computed by
+    the model from the un-minified result. Operand pairs include alphabets with a symbol that labels no transition
+    and operands that are total on the used symbols only."""
+    from automata.fa.nfa import NFA
+    rng = ctx.rng
+    ops = ["union", "intersection", "difference", "symmetric_difference"]
+    for lo in range(0, n, 200):
+        cases, req = [], []
+        for i in range(min(200, n - lo)):
+            sigma = rng.choice(["ab", "abc", "abc", "xyz"])
+            used = sigma if rng.random() < 0.5 else sigma[:-1]          # last symbol never labels a transition
+            def operand():
+                dd = gen.rand_dfa_def(rng, nmax=4, alphabet=used, partial=rng.random() < 0.6)
+                if rng.random() < 0.5:
+                    dd = gen.rand_dfa_with_dead(rng, alphabet=used, partial=rng.random() < 0.7)
+                dd = dict(dd)
+                dd["input_symbols"] = set(sigma)
+                if used != sigma:
+                    dd["allow_partial"] = True
+                return dd
+            kind = rng.choice(ops + ops + ["complement", "from_nfa"])
+            if kind == "from_nfa":
+                ndef = gen.rand_nfa_def(rng, nmax=4, alphabet=used)
+                ndef["input_symbols"] = set(sigma)
+                nf = NFA(**ndef)
+                call = lambda mn, nf=nf: DFA.from_nfa(nf, minify=mn, retain_names=rng.random() < 0.3)
+                desc = ("from_nfa", repr(ndef))
+            elif kind == "complement":
+                a = mk_dfa(operand())
+                call = lambda mn, a=a: a.complement(minify=mn, retain_names=rng.random() < 0.3)
+                desc = ("complement", repr(a.input_parameters))
+            else:
+                a, b = mk_dfa(operand()), mk_dfa(operand())
+                call = lambda mn, a=a, b=b, kind=kind: getattr(a, kind)(b, minify=mn, retain_names=rng.random() < 0.3)
+                desc = (kind, repr(a.input_parameters), repr(b.input_parameters))
+            plain, mini = outcome(lambda: call(False)), outcome(lambda: call(True))
+            if plain[0] != "ok" or mini[0] != "ok":
+                ctx.violation(f"{kind} raised on valid operands: minify=False {plain[:2]} minify=True {mini[:2]}",
+                              {"kind": "ops_minify", "desc": repr(desc)})
+                continue
+            sy = enc.SymMap(plain[1].input_symbols)
+            tp, tm = enc.enc_dfa(plain[1], None, sy), enc.enc_dfa(mini[1], None, sy)
+            cases.append((desc, plain[1], mini[1], sy))
+            req.append((5, 2, enc.tree(tp)))                 # minimal PARTIAL DFA of the un-minified result
+            req.append((0, 1, enc.tree([tm, tp])))           # language of the minified vs the un-minified result
+        ans = ctx.driver.batch(req)
+        for j, (desc, plain, mini, sy) in enumerate(cases):
+            m, cmp_ = enc.dec_res(ans[2 * j]), ans[2 * j + 1]
+            problems = []
+            diff = enc.dec_res(cmp_[4])
+            if diff[0] == "ok" and diff[1]:
+                w = sy.unword(diff[1][0])
+                problems.append(f"minify=True changes the language: {w!r} (minify=False accepts {plain.accepts_input(w)}, "
+                                f"minify=True accepts {mini.accepts_input(w)})")
+            if not cmp_[0]:
+                problems.append("the minified result is not valid")
+            if m[0] == "ok":
+                live, live_partial = len(m[1][0][0]), bool(m[1][0][5])
+                want = live if mini.allow_partial else live + (1 if live_partial else 0)
+                if len(mini.states) != want:
+                    problems.append(f"the minify=True result ({'partial' if mini.allow_partial else 'complete'}) has "
+                                    f"{len(mini.states)} states, the minimum for a DFA of that kind is {want}")
+            ctx.tally("ops_minify_" + desc[0])
+            ctx.case(("ops_minify", repr(desc)), len(plain.states) > 1)
+            if problems:
+                ctx.violation(f"{desc[0]}(..., minify=True) disagrees: " + "; ".join(problems),
+                              {"kind": "ops_minify", "desc": repr(desc), "problems": problems})
+
+
 def run(ctx):
     ctx.rule = RULE
     rng = ctx.rng
     check_defs(ctx, corner_defs())
+    ops_minify_stream(ctx, ctx.n(700, 8000))
     stress_minify(ctx, ctx.n(1800, 20000))
     n = ctx.n(1000, 50000)
     stream = []
@@ -567,7 +642,27 @@ def run(ctx):
                                 "2 + 64 + 5832 automata; each through the five calls and minify().minify()")
 
 
+def replay_ops_minify(case):
+    from automata.fa.nfa import NFA
+    desc = eval(case["desc"])
+    kind = desc[0]
+    objs = [load_def(x) for x in desc[1:]]
+    for mn in (False, True):
+        if kind == "from_nfa":
+            r = DFA.from_nfa(NFA(**objs[0]), minify=mn)
+        elif kind == "complement":
+            r = DFA(**objs[0]).complement(minify=mn)
+        else:
+            r = getattr(DFA(**objs[0]), kind)(DFA(**objs[1]), minify=mn)
+        print(f"  {kind}(minify={mn}): {len(r.states)} states, partial={r.allow_partial}, transitions={dict(r.transitions)!r}, "
+              f"initial={r.initial_state!r}, finals={set(r.final_states)!r}")
+    print("  recorded problems:", case.get("problems"))
+
+
 def replay(ctx, case):
+    if case.get("kind") == "ops_minify":
+        replay_ops_minify(case)
+        return
     if case.get("kind") == "dfa":
         ddef = load_def(case["def"])
         plan = check_defs(ctx, [(case.get("tag", "replay"), ddef)])
